@@ -593,7 +593,7 @@ fn mutant_texts(tier: Tier) -> Vec<String> {
 
 pub fn run(tier: Tier) -> i32 {
     let mut run = Run::new("C11", tier, "model_checking");
-    run.rule = "(a) stability: every spelling with <= 1 (thorough 2) deviations of the scalar alphabet and of a container sample (reference writer), the corpus files shipped with the repository, a timestamp in every zone of the database (bare and inside a grid / list / dict), every accepted single-byte mutant of the small documents, for Zinc and Hayson: decode, re-encode, decode again (same value incl. grid ver), re-encode (identical text). (b) chunking (E2): every script of a reader that at each read() delivers all / one byte / half / Interrupted, with <= 2 deviations, for parse_value and for parse_grid_iterator vs parse_grid. (a'/b') every size witness (strings, widths, nesting at and around 2^6..2^16): stable in both formats, and its Zinc text through readers delivering at most 1..17, 31..33, 63..65, 100, 255..257, 1000, 4095..4097, 8191..8193 bytes per call, or Interrupted on the first / every 2nd / 3rd / 5th / 7th call decodes (whole value and lazy rows) as from a buffer. (b'') the iterator API of the lazy row iterator (nth, skip, step_by, take, last, count, size_hint, next) on the laziness documents and on grids with nested grid / list / dict cells gives the rows of parse_grid. (c) laziness: a counting reader under parse_grid_iterator for grids of 1-3 columns x 1-40 rows (LF and CRLF, nested grids, empty cells): bytes consumed when row i is yielded <= end of the first token after row i + 12. states = documents, transitions = reader scripts executed; non-trivial = distinct accepted text".into();
+    run.rule = "(a) stability: every spelling with <= 1 (thorough 2) deviations of the scalar alphabet and of a container sample (reference writer), the corpus files shipped with the repository, a timestamp in every zone of the database (bare and inside a grid / list / dict), every accepted single-byte mutant of the small documents, for Zinc and Hayson: decode, re-encode, decode again (same value incl. grid ver), re-encode (identical text). (b) chunking (E2): every script of a reader that at each read() delivers all / one byte / half / Interrupted, with <= 2 deviations, for parse_value and for parse_grid_iterator vs parse_grid. (a'/b') every size witness (strings, widths, nesting at and around 2^6..2^16): stable in both formats, and its Zinc text through readers delivering at most 1..17, 31..33, 63..65, 100, 255..257, 1000, 4095..4097, 8191..8193 bytes per call, or Interrupted on the first / every 2nd / 3rd / 5th / 7th call decodes (whole value and lazy rows) as from a buffer. (b'') the iterator API of the lazy row iterator (nth, skip, step_by, take, last, count, size_hint, next) on the laziness documents and on grids with nested grid / list / dict cells gives the rows of parse_grid. (c) laziness: a counting reader under parse_grid_iterator for grids of 1-3 columns x 1-40 rows (LF and CRLF, nested grids, empty cells): bytes consumed when row i is yielded <= end of the first token after row i + 12; the same for grids of 1 000 / 5 000 / 20 000 (thorough 100 000) rows — up to megabytes — at every row. states = documents, transitions = reader scripts executed; non-trivial = distinct accepted text".into();
     run.assume("12 bytes = the lexer's maximal lookahead (1 scanner byte + up to 10 peeked bytes for number/date detection + CR LF)");
     run.assume("Interrupted reads are retried by the decoder (std::io::Read::read_exact semantics)");
     crate::engine::quiet_panics();
@@ -750,6 +750,29 @@ pub fn run(tier: Tier) -> i32 {
         }
     });
     run.absorb(l);
+    // laziness does not wear off: grids of 1 000 .. 20 000 (thorough 100 000) rows, i.e. up to a few
+    // megabytes — the bound holds at every row, however far into the stream
+    {
+        let mut big: Vec<(usize, usize, usize, bool)> = vec![];
+        for nrows in tier.pick(vec![1_000usize, 5_000, 20_000], vec![1_000, 5_000, 20_000, 100_000]) {
+            for (ncols, seed, crlf) in [(3usize, 1usize, false), (1, 2, true), (2, 0, false)] {
+                big.push((ncols, nrows, seed, crlf));
+            }
+        }
+        let l = par_for(big.len(), |i, local| {
+            let (ncols, nrows, seed, crlf) = big[i];
+            let (doc, bounds) = lazy_doc(ncols, nrows, seed, crlf, false);
+            local.eval();
+            local.states += 1;
+            local.count("lazy-big-docs");
+            local.count_n("lazy-big-bytes", doc.len() as u64);
+            if let Err((sig, d)) = lazy_case(&doc, &bounds) {
+                local.fail(&format!("{sig}:big-grid"), json!({"lazy_big": [ncols, nrows, seed, crlf as usize]}), d);
+            }
+        });
+        run.absorb(l);
+        run.require(run.counter("lazy-big-bytes") > 500_000, "big laziness documents too small");
+    }
     run.stats.traces = run.stats.transitions;
     run.require(run.counter("zinc-accepted") > 10_000 && run.counter("hayson-accepted") > 1000, "too few accepted texts");
     run.require(run.counter("corpus-files") == 3, "corpus files");
@@ -760,6 +783,11 @@ pub fn run(tier: Tier) -> i32 {
 }
 
 pub fn replay(case: &J) -> Verdict {
+    if let Some(a) = case["lazy_big"].as_array() {
+        let g = |k: usize| a[k].as_u64().unwrap_or(0) as usize;
+        let (doc, bounds) = lazy_doc(g(0), g(1), g(2), g(3) == 1, false);
+        return lazy_case(&doc, &bounds).map_err(|(s, d)| (format!("{s}:big-grid"), d));
+    }
     if let Some(doc) = case["iterator_api_doc"].as_str() {
         return iterator_api_case(doc);
     }
